@@ -2,6 +2,7 @@
 package c11
 
 import (
+	"strings"
 	"encoding/json"
 	"fmt"
 
@@ -58,7 +59,45 @@ func generate(w *mon.W) {
 		}
 		w.Do(src, func(r *mon.R) { Check(c, r) })
 	}
-	// whatever Parse accepts must be walkable: corrupted programs that still parse
+	// whatever Parse accepts must be walkable: every single-token deletion,
+	// duplication and punctuation insertion of the first programs of the corpus
+	// and of small wide constructs (exhaustive, so that an accepted oddity such
+	// as a doubled or trailing comma in any list is certainly tried)
+	{
+		var base []string
+		for i := 0; i < len(corpus) && len(base) < w.Pick(40, 300); i++ {
+			if len(gen.Lexemes(corpus[i])) <= 40 {
+				base = append(base, corpus[i])
+			}
+		}
+		for _, kind := range gen.WideKinds {
+			for _, sz := range []int{1, 2, 3} {
+				base = append(base, Print(gen.Wide(kind, sz), Layout{Mode: 0}).Src)
+			}
+		}
+		raw := func(s string) {
+			ms := mon.Str(s)
+			c := &Case{Raw: &ms}
+			w.Do("raw|"+s, func(r *mon.R) { Check(c, r) })
+		}
+		punct := []string{",", "(", ")", "[", "]", "=", "|", ";", ".", "-", "by", "x", "1", "'s'", "asc", "nulls", "with", "kind", "on"}
+		for _, src := range base {
+			parts := gen.Lexemes(src)
+			join := func(p []string) string { return strings.Join(p, " ") }
+			for i := range parts {
+				raw(join(append(append([]string{}, parts[:i]...), parts[i+1:]...)))
+				raw(join(append(append(append([]string{}, parts[:i]...), parts[i]), parts[i:]...)))
+			}
+			for i := 0; i <= len(parts); i++ {
+				for _, v := range punct {
+					raw(join(append(append(append([]string{}, parts[:i]...), v), parts[i:]...)))
+				}
+			}
+			if w.Stopped() {
+				return
+			}
+		}
+	}
 	corpus = append(corpus, gen.Seeds()...)
 	mrng := gen.RNG(w.Seed, "c11mut")
 	m := w.Pick(60_000, 1_500_000)
